@@ -24,6 +24,8 @@ import PyTough.Proofs.GeoConnDel
 import PyTough.Proofs.GeoColumn
 import PyTough.Proofs.GeoColumnDel
 import PyTough.Proofs.GeoRun
+import PyTough.Proofs.GeoLayers
+import PyTough.Proofs.GeoRename
 namespace Props.C10
 open Model.Geo Model.Geo.Geo Py Proofs.Geo
 
@@ -197,6 +199,33 @@ example : (strip2 >>= fun g => g.run
      .addConnection (nm 'b') (nm 'a'), .addConnection (nm 'b') (nm 'c'), .translate 1 2 3 false, .deleteColumn (nm 'a'),
      .setupNames]).map (fun g => (g.geoInv0, g.namesFresh, g.columnlist.length, g.connlist.length)) = .ok (true, true, 2, 1) := by
   decide +kernel
+
+/-! ### renaming, copying layers: the whole invariant -/
+
+/-- `rename_column(old, new)` to a name that no other column has: the column dictionary is re-keyed in place, the
+    connection dictionary is rebuilt under the new names (its keys stay distinct), the name lists are recomputed -/
+theorem rename_column_preserves (g g' : Geo) (old new : Name) (hd : g.renameColumn [old] [new] = .ok g')
+    (hnew : g.columnD.contains new = false ∨ new = old) (h : g.geoInv = true) : g'.geoInv = true :=
+  renameColumn_geoInv g g' old new hd hnew h
+
+theorem rename_layer_preserves (g g' : Geo) (old new : Name) (hd : g.renameLayer [old] [new] = .ok g')
+    (hnew : g.layerD.contains new = false ∨ new = old) (h : g.geoInv = true) : g'.geoInv = true :=
+  renameLayer_geoInv g g' old new hd hnew h
+
+/-- `copy_layers_from(geo)` needs only the structural invariant and RESTORES the rest: every column's layer count is
+    recomputed from its surface and the name lists from scratch (so it also repairs what a bare `add_layer` /
+    `delete_layer` left stale) -/
+theorem copy_layers_from_establishes_invariant (g g' : Geo) (layers : List Layer)
+    (hc : g.copyLayersFrom layers = .ok g') (h : g.geoInv0 = true) : g'.geoInv = true :=
+  copyLayersFrom_geoInv g g' layers hc h
+
+example : (strip2 >>= fun g => g.renameColumn [nm 'a'] [nm 'q'] >>= fun g =>
+    g.renameLayer [[' ', '1']] [[' ', '7']] >>= fun g =>
+    g.copyLayersFrom [{ name := [' ', '0'], bottom := 0, centre := 0, top := 0 },
+                      { name := [' ', '1'], bottom := -2, centre := -1, top := 0 },
+                      { name := [' ', '2'], bottom := -3, centre := -5/2, top := -2 }]).map
+      (fun g => (g.geoInv, g.connD.map (·.1), g.blockNames.length)) =
+    .ok (true, [(nm 'q', nm 'b')], 4) := by decide +kernel
 
 /-! ### translating and rotating preserve the whole invariant -/
 
